@@ -102,7 +102,9 @@ def gen(ctx):
                 ks = [k for k in (elem_keys(pd) or G.IDENTS) if k]
                 R = ident_or_quoted(rng.choice(ks)) if ks else R
                 if rng.random() < 0.3:
-                    R = R + rng.choice([".a", "[0]", ".*", "[*]"])
+                    # (a filter's own right-hand side is parsed at the filter's power, so a further `[?..]` ENDS it: `x[?p].y[?q]` is `(x[?p].y)[?q]`)
+                    R = R + rng.choice([".a", "[0]", ".*", "[*]", "[1:]", "[::-1]", "[:1].a"] +
+                                       ([] if form == "filter" else ["[?@]", "[?a]", "[?@ > `1`]", "[?a].b", "[?@ != `null`]"]))
                 elif rng.random() < 0.25:
                     # a right-hand side that maps null to something else: the per-element law must apply it to null elements too
                     R = rng.choice(["type(@)", "not_null(@, `1`)", "to_string(@)", "to_array(@)", "length(to_array(@))", "to_array(@)[0]",
@@ -147,6 +149,31 @@ def gen(ctx):
             d2 = "{ s61 " + x + " s62 " + y + " }"
             out.append(("and", "(a) && (b)", d2, ["a", "b"]))
             out.append(("or", "(a) || (b)", d2, ["a", "b"]))
+    # what follows a multi-select applies to its RESULT: a multi-select on a null node is null (whatever its members would give there), every
+    # member is evaluated (an error in a member that is not picked afterwards still surfaces), and picking comes second
+    ms_docs = ["{ s61 u1 s62 s78 }", "n", "{ s6d697373696e67 n s61 u2 s62 [ u1 ] }", "[ { s61 u1 } n { s61 n } ]", "{ s61 { s61 u3 s6b u4 } }"]
+    ms_L = ["missing.[`\"x\"`, a]", "missing.{k: `1`, j: a}", "[`\"x\"`, a]", "{k: `1`, j: a}", "a.[`\"x\"`, a, k]", "a.{k: k, j: `[1]`, a: a}",
+            "[a, abs(b)]", "{k: a, j: abs(b)}", "[!@, a]", "{k: !@, j: `2`}", "missing.[!@, `1`]", "[0].[a, `7`]", "[1].[a, `7`]", "[2].{k: a, j: `7`}",
+            "[*].[a, `7`]", "[*].{k: a, j: `7`}", "*.[a]", "@.[a, b]", "b.[@, `1`]"]
+    ms_R = ["[0]", "[-1]", "[1]", "k", "j", "a", "[0][0]", "k.a", "[*]", "*", "length(@)", "type(@)", "[?@]", "[1:]", "keys(@)"]
+    for d in ms_docs:
+        for L in ms_L:
+            for R in (ms_R if ctx.tier != "quick" else rng.sample(ms_R, 6)):
+                out.append(("pipe", "(%s) | (%s)" % (L, R), d, [L, R]))
+                out.append(("pipe", "%s | %s" % (L, R), d, [L, R]))
+                if not L.startswith(("[*]", "*")):        # after an open projection `[0]` / `.k` would apply per element: not a composition
+                    out.append(("pipe", "%s%s%s" % (L, "" if R.startswith("[") else ".", R), d, [L, R]))
+    # every projection kind x every kind of continuation of its right-hand side (field then filter / index / slice / wildcard / flatten-free chains)
+    pd_doc = G.json_to_enc({"a": [{"t": [1, 2, 3], "u": {"t": [4]}}, {"t": [0, 5]}, {"t": []}, {"u": 1}, None, {"t": [[2], [3, 4]]}]})
+    for form, proj, extra in [("wild", "[*]", None), ("slice", "[0:2]", "[0:2]"), ("slice", "[::-1]", "[::-1]"), ("slice", "[1:]", "[1:]"), ("slice", "[:-1:2]", "[:-1:2]"),
+                              ("flatten", "[]", None), ("filter", "[?t]", "t"), ("filter", "[?@]", "@")]:
+        for R in ["t[?@ > `1`]", "t[?@]", "t[0]", "t[*]", "t[1:]", "t[-1]", "u.t[?@ > `1`]", "t[?@ > `1`][0]", "t[*][0]", "t[?@ > `1`] || t", "t[0] == `1`", "t && u",
+                  "{k: t}.k[?@ > `2`]", "t[?@ > `1`].length(@)", "t[::2][?@ > `0`]"]:
+            if form == "filter" and ("[?" in R or "||" in R or "&&" in R or "==" in R):
+                continue            # a filter's right-hand side ends at a further filter / at operators (see above)
+            if ("||" in R or "&&" in R or "==" in R):
+                continue            # an operator ends every projection's right-hand side: not of the form proj.R
+            out.append((form, "(a)%s.%s" % (proj, R), pd_doc, ["a", R] + ([extra] if extra else [])))
     # a parenthesised projection is CLOSED: what follows applies to its result as a whole (composition), not per element
     for _ in range(150 if ctx.tier == "quick" else 5000):
         A = rng.choice(["a[*]", "a[]", "a[?b]", "b.*", "a[1:]", "a[*].a", "a[?@].b", "*", "a[*].a[]"])
